@@ -122,6 +122,7 @@ class ImageBatch(DataTensor):
                     start = 0
                     for num in split_size_or_sections:
                         split_grids.append(grids[start : start + num])
+                        start += num
                 return split_grids
             if func in (torch.split_with_sizes, Tensor.split_with_sizes):
                 grids = grids[0]
@@ -130,6 +131,7 @@ class ImageBatch(DataTensor):
                 start = 0
                 for num in split_sizes:
                     split_grids.append(grids[start : start + num])
+                    start += num
                 return split_grids
             if func in (torch.tensor_split, Tensor.tensor_split):
                 grids = grids[0]
